@@ -2,6 +2,8 @@ import TonicModel.Model.WebServer
 import TonicModel.Spec.GrpcWeb
 import TonicModel.Lemmas.GrpcWeb
 import TonicModel.Lemmas.WebServer
+import TonicModel.Lemmas.WebServerX
+import TonicModel.Spec.BodyHints
 /-
 C16 — grpc-web server layer translates requests and responses losslessly.
 Property theorems only; helper lemmas live in `Lemmas/GrpcWeb` and `Lemmas/WebServer`.
@@ -424,5 +426,140 @@ example :
       method := TMap.str "GET", version := Ver.h2, uri := TMap.str "/", ext := false,
       headers := [(CONTENT_TYPE, GRPC_WEB)] }
     Spec.GrpcWeb.expectFor p.method (p.version == Ver.h2) p.headers = .status 405 := by decide
+
+/-! ### Dimension audit (aC16): hints of the translated bodies, the response head
+
+A body's hints (`size_hint`, `is_end_stream`) are read by whoever carries it — hyper writes `content-length` from an
+exact size and cuts the body there.  `Spec.BodyHints.truthful` is what http-body promises of them; `reading h outs`
+puts a hint next to what the body emits from that moment on.  The theorems are about EVERY state a body can be in
+(`s` = the inner body's remaining events, `respRun enc s` / `reqBin s` / `reqText buf s` = what the consumer still
+gets), for every inner hint that is itself truthful. -/
+
+/-- **The response body's hints are truthful** (after the fix): in every state, for both forms, whatever truthful
+hint the inner body gives — the translated body promises no upper bound, its lower bound is covered by what it
+emits when it ends cleanly, and it says "end of stream" only when nothing but the end follows. -/
+theorem C16_response_hints_truthful (enc : Enc) (s : List BodyEv) (h : Hint)
+    (hlo : h.lo ≤ (flat s).length) (heos : h.eos = true → s.filter notPending = []) :
+    Spec.BodyHints.truthful (reading (callHint .encode enc h) (respRun enc s)) = true := by
+  rw [truthful_iff]
+  refine ⟨?_, ?_, ?_⟩
+  · intro u hu; simp [callHint] at hu
+  · intro hc
+    have := respRun_dataLen_ge enc s hc
+    simp only [callHint]; omega
+  · intro he
+    have hs := heos (by simpa [callHint] using he)
+    rw [respRun_filter, hs]
+    simp [respRun, dataLens, others, endsClean]
+
+/-- **As found, they were not**: `size_hint` was forwarded from the inner body.  Witness: a body of exact size 0 that
+still owes its trailers (what `Empty` / `Full` `.with_trailers(..)` report) — the translated body announced exactly
+0 bytes and then emitted the 20-byte trailers frame.  Replayed on the real code as the first `hresp` / `wresp`
+corpus lines (through hyper: HTTP/1 body cut off before the trailers frame, HTTP/2 stream reset). -/
+theorem C16_response_hints_truthful_fails_as_found :
+    ¬ ∀ (enc : Enc) (s : List BodyEv) (h : Hint), h.lo ≤ (flat s).length →
+        (∀ u, h.hi = some u → (flat s).length ≤ u) → (h.eos = true → s.filter notPending = []) →
+        Spec.BodyHints.truthful (reading (callHintAsFound .encode enc h) (respRun enc s)) = true := by
+  intro H
+  have := H .none [.trailers [(TMap.str "grpc-status", TMap.str "0")]] ⟨0, some 0, false⟩
+    (by decide) (by intro u _; exact Nat.zero_le u) (by decide)
+  revert this
+  decide
+
+/-- **Binary request body: the inner hints hold as they are** — the data passes through unchanged, so the size
+bounds and the end-of-stream hint of the request body are right for the body the inner service is handed. -/
+theorem C16_request_binary_hints_truthful (s : List BodyEv) (h : Hint)
+    (hlo : h.lo ≤ (flat s).length) (hhi : ∀ u, h.hi = some u → (flat s).length ≤ u)
+    (heos : h.eos = true → s.filter notPending = []) :
+    Spec.BodyHints.truthful (reading (callHint .decode .none h) (reqBin s)) = true := by
+  rw [truthful_iff]
+  refine ⟨?_, ?_, ?_⟩
+  · intro u hu
+    have := hhi u (by simpa [callHint] using hu)
+    have := reqBin_dataLen_le s
+    omega
+  · intro hc
+    rw [reqBin_dataLen_eq s hc]
+    simpa [callHint] using hlo
+  · intro he
+    have hs := heos (by simpa [callHint] using he)
+    rw [reqBin_filter, hs]
+    simp [reqBin, dataLens, others, endsClean]
+
+/-- **Text request body**: decoded data is shorter than the text, so (after the fix) the body gives no size at
+all; its end-of-stream hint is the inner body's, and when that is raised the only thing left is the end — or, if
+an undecodable remainder (1–3 characters) is still buffered, the error of a malformed body. -/
+theorem C16_request_text_hints (buf : Bytes) (s : List BodyEv) (h : Hint)
+    (heos : h.eos = true → s.filter notPending = []) :
+    (callHint .decode .base64 h).lo = 0 ∧ (callHint .decode .base64 h).hi = none ∧
+    ((callHint .decode .base64 h).eos = true →
+      reqText buf s = if buf.isEmpty then [Out.eos] else [Out.err]) := by
+  refine ⟨rfl, rfl, ?_⟩
+  intro he
+  have hs := heos (by simpa [callHint] using he)
+  rw [reqText_filter, hs]
+  simp [reqText]
+
+/-- … consequently every reading of a text request body is truthful while no undecoded remainder is buffered. -/
+theorem C16_request_text_hints_truthful (s : List BodyEv) (h : Hint)
+    (heos : h.eos = true → s.filter notPending = []) :
+    Spec.BodyHints.truthful (reading (callHint .decode .base64 h) (reqText [] s)) = true := by
+  rw [truthful_iff]
+  refine ⟨?_, ?_, ?_⟩
+  · intro u hu; simp [callHint] at hu
+  · intro _; simp [callHint]
+  · intro he
+    have := (C16_request_text_hints [] s h heos).2.2 he
+    rw [this]
+    simp [dataLens, others, endsClean]
+
+/-- As found the text request body claimed the length of the base64 TEXT for the decoded data: `AQ==` (4
+characters, exact size 4) decodes to one byte. -/
+theorem C16_request_text_hints_fail_as_found :
+    Spec.BodyHints.truthful (reading (callHintAsFound .decode .base64 ⟨4, some 4, false⟩)
+      (reqText [] [.data (TMap.str "AQ==")])) = false := by
+  decide
+
+/-- **`Body::new` around a translated body** (`coerce_request`, `coerce_response`, the pass-through arm): when the
+wrapped body is truthful about being at its end, taking it for `Body::empty()` loses nothing, and the wrapper's
+hints are truthful whenever the wrapped body's are. -/
+theorem C16_body_new_truthful (first now : Hint) (run : List Out)
+    (hfirst : first.eos = true → run = [Out.eos])
+    (hnow : Spec.BodyHints.truthful (reading now run) = true) :
+    bodyNewRun first run = run ∧
+    Spec.BodyHints.truthful (reading (bodyNew first now) (bodyNewRun first run)) = true := by
+  cases he : first.eos with
+  | false => simp [bodyNewRun, bodyNew, he, hnow]
+  | true =>
+    have hr := hfirst he
+    subst hr
+    refine ⟨by simp [bodyNewRun, he], ?_⟩
+    simp [bodyNewRun, bodyNew, he]
+    decide
+
+/-- **The response head comes back as the inner service made it**, except for `content-type`: status, HTTP
+version and extensions are kept (any status, not only 200 — a trailers-only answer with `grpc-status` among its
+headers included), exactly one `content-type` of the accepted form, every other header value in place. -/
+theorem C16_response_head_kept (a : Enc) (h : RespHead) :
+    (coerceResponseHead a h).status = h.status ∧
+    (coerceResponseHead a h).version = h.version ∧
+    (coerceResponseHead a h).ext = h.ext ∧
+    TMap.getAll CONTENT_TYPE (coerceResponseHead a h).headers =
+      [Spec.GrpcWeb.responseContentType (a == Enc.base64)] ∧
+    ∀ k, k ≠ CONTENT_TYPE →
+      TMap.getAll k (coerceResponseHead a h).headers = TMap.getAll k h.headers := by
+  obtain ⟨h1, h2⟩ := C16_coerce_response_headers a h.headers
+  exact ⟨rfl, rfl, rfl, h1, h2⟩
+
+-- non-vacuity: a truthful exact hint on a body with data and trailers; the readings the fixed code gives
+example :
+    let s : List BodyEv := [.data [0, 0, 0, 0, 1, 7], .pending, .trailers [(TMap.str "grpc-status", TMap.str "0")]]
+    let h : Hint := ⟨6, some 6, false⟩
+    h.lo ≤ (flat s).length ∧ (flat s).length ≤ 6 ∧
+    callHint .encode .base64 h = ⟨6, none, false⟩ ∧
+    dataLen (respRun .base64 s) = 36 ∧
+    respHints (fun s => ⟨(flat s).length, some (flat s).length, s.isEmpty⟩) .none s =
+      [⟨6, none, false⟩, ⟨0, none, false⟩, ⟨0, none, true⟩] := by
+  decide
 
 end C16
